@@ -180,6 +180,14 @@ def _short(s, n=70):
 # Tor reads the key first and the remaining arguments in any order, names case-insensitively.
 # ---------------------------------------------------------------------------
 
+
+def _norm_err(msg):
+    """txtorcon joins a set of HSDirs into its error text; make that independent of set order"""
+    head, sep, tail = msg.partition(' to: ')
+    if sep:
+        return head + sep + ', '.join(sorted(x.strip() for x in tail.split(',')))
+    return msg
+
 class CmdError(Exception):
     def __init__(self, code, text):
         Exception.__init__(self, '%d %s' % (code, text))
@@ -718,7 +726,7 @@ class Watch(object):
             if self.fired > 1:
                 run.fail('%s.fired-twice' % run.prop, '%s fired %d times' % (self.name, self.fired))
             run.sim.log('result', self.name, 'success' if success else 'failure',
-                        type(value).__name__ if success else '%s: %s' % (value.type.__name__, value.getErrorMessage()[:160]))
+                        type(value).__name__ if success else '%s: %s' % (value.type.__name__, _norm_err(value.getErrorMessage())[:160]))
             if self.on_fire is not None:
                 self.on_fire(self)
         except StopRun:
@@ -1268,7 +1276,7 @@ class C15Run(OnionRun):
             sim.probe('completed')
             return
         f = w.value
-        what = '%s: %s' % (f.type.__name__, f.getErrorMessage()[:120])
+        what = '%s: %s' % (f.type.__name__, _norm_err(f.getErrorMessage())[:120])
         if self.reply_code is not None and self.reply_code >= 500 and self.reply_delivered():
             self.outcome = 'rejected'
             return
@@ -1603,7 +1611,7 @@ class C14Run(OnionRun):
             return
         if not w.ok:
             self.fail('C14.create-failed', '%s: Tor accepted the command and confirmed an upload, create() failed: %s: %s' % (
-                what, w.value.type.__name__, w.value.getErrorMessage()[:200]))
+                what, w.value.type.__name__, _norm_err(w.value.getErrorMessage())[:200]))
         sim.probe('created')
         svc = w.value
         sid = entry['sid']
@@ -1620,7 +1628,7 @@ class C14Run(OnionRun):
             self.fail('C14.del-onion-differs', '%s: remove() sent %r, expected one DEL_ONION %s' % (what, dels, sid))
         if not rw.fired or not rw.ok:
             self.fail('C14.remove-failed', '%s: Tor answered 250 to DEL_ONION, remove() %s' % (
-                what, 'is pending' if not rw.fired else 'failed: ' + rw.value.getErrorMessage()[:120]))
+                what, 'is pending' if not rw.fired else 'failed: ' + _norm_err(rw.value.getErrorMessage())[:120]))
         sim.probe('removed')
         self.observe(c, svc, sid, what, 'after remove()')
 
@@ -2114,7 +2122,7 @@ class C17Run(OnionRun):
         if w.ok:
             return
         f = w.value
-        err_s = '%s: %s' % (f.type.__name__, f.getErrorMessage()[:140])
+        err_s = '%s: %s' % (f.type.__name__, _norm_err(f.getErrorMessage())[:140])
         if step == 'none':
             self.fail('C17.listen-failed-without-fault', 'listen() failed (%s) although nothing was made to fail (%s)' % (err_s, what))
         expected = None
